@@ -210,6 +210,33 @@ mod tests {
         assert_eq!(dependencies.next(), None);
         commit_cursor.store(1, Ordering::Release);
         dependencies.commit(0);
+#[cfg(feature = "verif")]
+impl TxDependency {
+    /// `(onboard, dependency)` per transaction and the reverse edges, each read under its own
+    /// lock (`None` when the lock could not be taken within a short timeout).
+    #[allow(clippy::type_complexity)]
+    pub(crate) fn verif_dump(&self) -> (Vec<Option<(bool, Option<TxId>)>>, Vec<Option<Vec<TxId>>>) {
+        let timeout = std::time::Duration::from_millis(200);
+        let states = self
+            .dependent_state
+            .iter()
+            .map(|state| state.try_lock_for(timeout).map(|s| (s.onboard, s.dependency)))
+            .collect();
+        let affects = self
+            .affect_txs
+            .iter()
+            .map(|set| {
+                set.try_lock_for(timeout).map(|s| {
+                    let mut v: Vec<TxId> = s.iter().copied().collect();
+                    v.sort_unstable();
+                    v
+                })
+            })
+            .collect();
+        (states, affects)
+    }
+}
+
         assert_eq!(dependencies.next(), Some(1));
 
         let commit_cursor = AtomicUsize::new(1);
